@@ -68,23 +68,34 @@ impl Sys {
             let cuts: Vec<usize> = (0..nfrag - 1).map(|k| if k == 0 { base.max(1) } else { base.max(1) }).collect();
             let l = labels[i % labels.len()];
             let pt = [0x0800u16, 0x86DD, 0xFFFF, 0x0600][i % 4];
-            let pkts = ref_train(l, pt, i as u8, &pd, &cuts);
-            trains.push(Train { id: i as u8, label: l, pt, pdu: pd, pkts });
+            // every second train uses an id >= the number of slots (same slot, i + n), so that both
+            // "high id in progress, low aliasing stray" and the reverse occur
+            let id = if i % 2 == 1 { (i + slots) as u8 } else { i as u8 };
+            let pkts = ref_train(l, pt, id, &pd, &cuts);
+            trains.push(Train { id, label: l, pt, pdu: pd, pkts });
         }
         let n = slots as u8;
-        let k = shapes.len() as u8;
+        let k = shapes.len() as u8; // maps to the first slot no train uses (when slots > number of trains)
         let mut strays = vec![];
         let mk = |name: &str, bytes: Vec<u8>| Stray { name: name.to_string(), bytes, delivers: None, only_when_idle: None, evicts: None };
-        for t in &trains {
-            for m in [1u8, 2] {
-                let alias = t.id.wrapping_add(n.wrapping_mul(m));
+        for (ti, t) in trains.iter().enumerate() {
+            // aliases above (id+n, id+2n) and below (id-n, id mod n)
+            let mut aliases: Vec<u8> = vec![t.id.wrapping_add(n), t.id.wrapping_add(n.wrapping_mul(2))];
+            if t.id >= n {
+                aliases.push(t.id - n);
+                aliases.push(t.id % n);
+            }
+            aliases.sort();
+            aliases.dedup();
+            for (m, alias) in aliases.into_iter().enumerate() {
                 if (alias as usize) % slots == (t.id as usize) % slots && alias != t.id && !trains.iter().any(|x| x.id == alias) {
-                    strays.push(mk(&format!("inter-alias{}x{}", t.id, m), Desc::inter(alias, &[0xEE, 0xEF]).print()));
-                    strays.push(mk(&format!("end-alias{}x{}", t.id, m), Desc::end(alias, &[0xED], 0x01020304).print()));
+                    let lowhigh = if alias < t.id { "low" } else { "high" };
+                    strays.push(mk(&format!("inter-alias-{}{}x{}", lowhigh, t.id, m), Desc::inter(alias, &[0xEE, 0xEF]).print()));
+                    strays.push(mk(&format!("end-alias-{}{}x{}", lowhigh, t.id, m), Desc::end(alias, &[0xED], 0x01020304).print()));
                 }
             }
             let mut s = mk(&format!("dup-end-{}", t.id), t.pkts.last().unwrap().clone());
-            s.only_when_idle = Some(t.id as usize);
+            s.only_when_idle = Some(ti);
             strays.push(s);
         }
         if slots > shapes.len() {
